@@ -126,8 +126,13 @@ class Driver:
         if self.p is None:
             self.start()
             if getattr(self, 'hist', None):
-                # a new process after kill()/recycle: the callers re-establish their session themselves
+                # a new process after kill()/recycle: commands whose effect stays in force (attrdrv: the support population 'S', the entity 'E')
+                # are issued again, everything else the callers re-establish themselves
+                conf = self.SESSION.get(os.path.basename(self.exe).split('-')[0]) or {}
+                sticky = [h for h in self.hist if h.split(' ', 1)[0] in conf.get('sticky', ()) and h != line]
                 self.hist = []
+                for h in sticky:
+                    self.cmd(h, timeout=max(timeout or 0, self.timeout), _retry=False)
         self.ncmd += 1
         self._remember(line)
         try:
